@@ -5,7 +5,7 @@ decode entry points inside erltf (plus the receive-path glue in edp_client).
 """
 from ..core import callee_of, callee_names, is_call_to
 from ..ranges import canon
-from ..families import check_panics, check_allocs, check_read_to_end, check_recursion, check_casts
+from ..families import check_panics, check_allocs, check_read_to_end, check_recursion, check_casts, describe
 
 ENTRY = ['erltf::decoder::decode', 'erltf::decoder::decode_with_trailing', 'erltf::decoder::decode_raw_term',
          'erltf::decoder::decode_with_cache', 'erltf::decoder::decode_with_atom_cache', 'erltf::decoder::decode_borrowed',
@@ -119,3 +119,38 @@ def run(ctx):
     from . import c11 as _c11_02
     if type(ctx).__name__ != 'SubCtx':
         _c11_02.run(_Sub02(ctx, 'C02.3-comparator-terminates', 'c11', allow=('C11.1-swap-terminates',)))
+
+    # each single allocation bounded by the rest of the input is not enough when a parser that runs once per element copies the REST of the input
+    # (instead of the bytes it consumed): a list of n such elements keeps n copies of the tail alive - memory quadratic in the input
+    ctx.rule('C02.2-no-remainder-copies', 'no term parser (the family that parse_term calls once per nested element) copies the unconsumed remainder of its input into an owned buffer '
+             '(to_vec / copy_from_slice / Bytes::from / to_owned of the input parameter or of what a sub-parser left over): only bounded prefixes (take(n), x[..n]) are copied', floor=1)
+    from ..ranges import Ranges as _R02, canon as _canon02
+    COPY = ('to_vec', 'copy_from_slice', 'to_owned', 'extend_from_slice', 'put_slice')
+    fam = [q for q in bodies if q.startswith('erltf::decoder::parse_') and ctx.F.bodies[q]['kind'] in ('Fn', 'Closure')]
+    n_rc = 0
+    for q in fam:
+        XB = P.B(q)
+        RX = _R02(XB)
+        for bb, t in XB.calls():
+            nm = callee_of(t)[0] or ''
+            last = nm.rsplit('::', 1)[-1]
+            src = None
+            if last in ('to_vec', 'to_owned') and ('slice' in nm or '[T]' in nm or 'ToOwned' in nm) and t['args']:
+                src = t['args'][0]
+            elif last == 'copy_from_slice' and 'Bytes' in nm and t['args']:
+                src = t['args'][0]
+            elif last == 'from' and t['args'] and ('Bytes' in str(t.get('ga')) or 'Vec<u8>' in str(t.get('ga'))) and '&[u8]' in str(t.get('aty')):
+                src = t['args'][0]
+            if src is None:
+                continue
+            XB._cur_at = (bb, None)
+            c = _canon02(XB, src)
+            XB._cur_at = None
+            rem = c == ('arg', 1) or RX.suffix_parent(c) is not None
+            if rem:
+                n_rc += 1
+                ctx.bad('C02.2-no-remainder-copies', '%s:%s' % (q.rsplit('::', 1)[1], last), 'copies the whole unconsumed remainder of the input (%s): called once per nested element, the copies add up to memory quadratic in the length of the input'
+                        % describe(XB, c), ctx.where(XB, bb), key='ALLOC:%s:copies-remainder' % q)
+    ctx.anchor(len(fam) >= 20, 'the term parser family (at least twenty erltf::decoder::parse_* bodies)')
+    if n_rc == 0:
+        ctx.ok('C02.2-no-remainder-copies', 'decoder', 'no copy of an input remainder in %d parser bodies' % len(fam))
